@@ -617,9 +617,13 @@ class SVG:
         return self
 
     def _resolve_clip_path(
-        self, clip_path_url, transform=Affine2D.identity()
+        self, clip_path_url, transform=Affine2D.identity(), _active=()
     ) -> SVGPath:
         clip_path_el = self.resolve_url(clip_path_url, "clipPath")
+        if any(clip_path_el is el for el in _active):
+            # left to the recursion limit, every one of a thousand rounds would resolve
+            # the use elements and union the children again
+            raise ValueError(f"Circular clip-path reference through {clip_path_url}")
         self._resolve_use(clip_path_el)
 
         transform = _element_transform(clip_path_el, transform)
@@ -640,9 +644,10 @@ class SVG:
         clip = SVGPath.from_commands(union(clip_paths))
 
         if "clip-path" in clip_path_el.attrib:
-            # TODO cycle detection
             clip_clop = self._resolve_clip_path(
-                clip_path_el.attrib["clip-path"], transform
+                clip_path_el.attrib["clip-path"],
+                transform,
+                _active + (clip_path_el,),
             )
             clip = SVGPath.from_commands(intersection([clip, clip_clop]))
 
